@@ -349,6 +349,10 @@ def rule_r234(chk, prog):
                 args = [unparse(x) for x in val.args]
                 kws = [k.arg for k in val.keywords]
                 ok = not kws and args in ([f'{popv}.data'], ['*children'])
+                if args == [f'{popv}.data']:
+                    # only a leaf is re-created from its text: Node(()) of
+                    # an empty list "()" would be the list "(())"
+                    ok = ok and (f'{popv}.is_leaf()', True) in before
                 if args == ['*children']:
                     # children must be this frame's rebuilt children
                     ok = ok and 'children' in local and unparse(
